@@ -2,6 +2,7 @@ package main
 
 import (
 	"fmt"
+	"reflect"
 	"runtime/debug"
 
 	stackage "github.com/JesseCoretta/go-stackage"
@@ -164,6 +165,46 @@ func fill(s stackage.Stack, vals []any, mode int) {
 	default:
 		s.Push(vals...)
 	}
+}
+
+// condModes is the number of construction histories condHistory knows.
+const condModes = 7
+
+// condHistory builds the Condition (kw op ex) through one of several histories that all end in the
+// same logical Condition: set piecemeal, or with an earlier expression / keyword / operator replaced.
+func condHistory(kw any, op stackage.Operator, ex any, mode int) stackage.Condition {
+	if ex == nil || isNilPtr(ex) {
+		return stackage.Cond(kw, op, ex)
+	}
+	if direct := stackage.Cond(kw, op, ex); direct.Expression() == nil {
+		return direct // a value that no Condition accepts (e.g. ""): there is no history to vary
+	}
+	switch mode % condModes {
+	case 1:
+		var c stackage.Condition
+		c.Init()
+		c.SetKeyword(kw)
+		c.SetOperator(op)
+		c.SetExpression(ex)
+		return c
+	case 2:
+		return stackage.Cond(kw, op, StackAlias(stackage.And().Push("old"))).SetExpression(ex)
+	case 3:
+		return stackage.Cond(kw, op, stackage.Or().Push("old", "older")).SetExpression(ex)
+	case 4:
+		return stackage.Cond(kw, op, "old").SetExpression(ex)
+	case 5:
+		a := StackAliasS(stackage.List().Push("old", "older", "oldest"))
+		return stackage.Cond(kw, op, &a).SetExpression(ex)
+	case 6:
+		return stackage.Cond("other", stackage.Ne, ex).SetKeyword(kw).SetOperator(op)
+	}
+	return stackage.Cond(kw, op, ex)
+}
+
+func isNilPtr(x any) bool {
+	v := reflect.ValueOf(x)
+	return v.Kind() == reflect.Ptr && v.IsNil()
 }
 
 // fillMode derives a construction history from a description deterministically.
